@@ -929,7 +929,7 @@ func (crashHarness) Gen(seed uint64, prop, tier string) *simkit.Program {
 		if r.P(0.12) {
 			add("storm", int64(r.Intn(40)), int64(r.Intn(crashUniverse)), int64(r.Intn(24)), 0)
 		}
-		if r.P(0.2) {
+		if r.P(0.3) {
 			add("syskill", int64(r.Intn(1<<30)), int64(r.Intn(8*36)), 1, 0)
 		} else if r.P(0.35) {
 			add("realkill", int64(r.Intn(1<<30)), int64(r.Intn(8)), int64(r.Intn(4)), 0)
